@@ -22,13 +22,14 @@ RULE = (
     "reachable without crossing a payload) and must not be statically empty or a join identity.  Non-trivial = the "
     "tree has >= 1 transfer or materialization and >= 1 hook call; distinct = program skeleton x hook-call pattern."
     "  For half of the cases a further selection / calculation is then requested ON THE PROCESSED TREE with a random preferred engine, processed and executed again: the rows must be the model's rows of the whole sequence. "
+    "  In 30 % of the cases the first process() call is one in which the k-th hook call fails (injected fault): only materializations completed before the failure may have gained payloads, and the passes that follow must still yield the model's rows. "
 )
 ASSUMPTIONS = [
     "reference model vmon/model.py; SQLite + SQLAlchemy execute the SQL parts; grammar shim as in C02",
     "non-deterministic-slice and key-functional-dependency preconditions as in C01/C02 (discarded and counted)",
     "programs refused at construction with the documented row-order-loss error are legitimate rejections",
 ]
-MIN_OBS = {"processed_compared": 300, "hook_calls_checked": 300, "materialize_hook_calls": 50, "transfer_hook_calls": 200, "repeat_processed": 100}
+MIN_OBS = {"faulted_process_calls": 300, "processed_compared": 300, "hook_calls_checked": 300, "materialize_hook_calls": 50, "transfer_hook_calls": 200, "repeat_processed": 100}
 CASE_TIMEOUT = 60
 
 
@@ -51,6 +52,9 @@ def gen_case(rng, tier):
     g = gen.Gen(rng, cfg)
     case = gen.case_from(g, g.tree())
     case["repeats"] = rng.choice([1, 1, 2, 3])
+    if rng.random() < 0.3:
+        # a first process() call in which the k-th hook call fails (an I/O error in user code)
+        case["fault_at"] = rng.randint(1, 4)
     if rng.random() < 0.5:
         # keep building on the tree the Processor returned, then process again
         case["followup"] = {"pe": rng.choice(["sql", "it", "it2"]), "lit": rng.randint(-2, 2), "op": rng.choice(["gt", "le", "ne"]), "kind": rng.choice(["sel", "sel", "calc"])}
@@ -146,6 +150,31 @@ def run_case(case):
         needed_mats = materializations_on_the_evaluation_path(rel)
         pattern = []
         first_rows = None
+        if case.get("fault_at"):
+            from ..dbx import FaultyProcessor, InjectedFault
+
+            fproc = FaultyProcessor(db, case["fault_at"])
+            try:
+                fproc.process(rel)
+            except InjectedFault:
+                c["faulted_process_calls"] = c.get("faulted_process_calls", 0) + 1
+            except Exception as exc:  # noqa: BLE001
+                if not multi.prune_order_loss(rel, exc):
+                    out["violations"].append({"kind": "process_or_execute_raised", "detail": f"{exc_str(exc)} for {model.show(prog)} (pass with an injected hook failure)"})
+                    return out
+            for call in fproc.log:
+                for p in check_source(call[1], call[0]):
+                    out["violations"].append({"kind": f"{call[0]}_hook_precondition", "detail": f"{p} while processing {model.show(prog)} (pass with an injected hook failure)"})
+            # the failed call may have left payloads on materializations that were completed before
+            # the failure - and nothing else; the passes below must still give the right rows
+            after = payload_census(rel)
+            if set(after) != set(before) or str(rel) != before_str or repr(rel) != before_repr:
+                out["violations"].append({"kind": "input_tree_structure_changed", "detail": model.show(prog) + " (by a process() call that failed)"})
+            for nid, (tname, pid, node) in after.items():
+                old = before.get(nid)
+                if old is not None and old[1] != pid and (old[1] is not None or not isinstance(node, R.Materialization)):
+                    out["violations"].append({"kind": "payload_replaced" if old[1] is not None else "non_materialization_gained_payload", "detail": f"{tname} {short(node)} in {model.show(prog)} (by a process() call that failed)"})
+            before = after
         for rep in range(case.get("repeats", 1)):
             proc = VProcessor(db)
             try:
